@@ -17,8 +17,7 @@
    detach with and without retained children, replace_with, item assignment and deletion, content assignment,
    merge_text_nodes), any number of offered nodes (strings, tag() definitions, parentless nodes), any kind-based
    ambient filter, moves between trees.  Not modelled (both sides answer `Crash EUnmodelled`, so the theorems say
-   nothing about the code there): comments / PIs added next to a parentless node or a document root, item assignment
-   of an attached node to a childless node (finding 19).
+   nothing about the code there): comments / PIs added next to a parentless node or a document root.
    Missing: `edit_ok` (the relation the property states, independent of the shared position scripts) with
    `astep_sound`; preservation of `NoDup` identities (`cwf` is assumed, only its shape part `shape_ok` is shown
    preserved -- no lemma needs uniqueness); `C01_text_conserved` as a separate multiset statement (it is implied by the
